@@ -56,21 +56,21 @@ Definition adstepb (sh : shape) (ok brk : bool) (x : adstate) (a : aact) : optio
 
 Record astate := mkAS {
   as_replied : bool; as_ct : adstate; as_tc : adstate; as_clock : Z; as_first : option Z;
-  as_forced : bool; as_up : bool; as_down : bool
+  as_forced : bool; as_up : bool; as_down : bool; as_rdl : option Z; as_wdl : option Z
 }.
 
 Definition aget (d : dir) (s : astate) : adstate := match d with CT => as_ct s | TC => as_tc s end.
 Definition aset (d : dir) (s : astate) (x : adstate) : astate :=
   match d with
-  | CT => mkAS (as_replied s) x (as_tc s) (as_clock s) (as_first s) (as_forced s) (as_up s) (as_down s)
-  | TC => mkAS (as_replied s) (as_ct s) x (as_clock s) (as_first s) (as_forced s) (as_up s) (as_down s)
+  | CT => mkAS (as_replied s) x (as_tc s) (as_clock s) (as_first s) (as_forced s) (as_up s) (as_down s) (as_rdl s) (as_wdl s)
+  | TC => mkAS (as_replied s) (as_ct s) x (as_clock s) (as_first s) (as_forced s) (as_up s) (as_down s) (as_rdl s) (as_wdl s)
   end.
 Definition aclosed (sd : side) (s : astate) : bool := match sd with Up => as_up s | Down => as_down s end.
 Definition acan_copy (sh : shape) (s : astate) : bool :=
   as_replied s && (negb (sh_drain_first sh) || (n_pre (as_ct s) =? 0)).
 Definition aany_closed (s : astate) : bool := as_up s || as_down s.
 Definition amay_break (sh : shape) (s : astate) (d : dir) : bool :=
-  aany_closed s || (negb (sh_clears_deadline sh) && dir_eqb d CT) || (negb (sh_clears_wdeadline sh) && dir_eqb d TC).
+  aany_closed s || match d with CT => expired (as_rdl s) (as_clock s) | TC => expired (as_wdl s) (as_clock s) end.
 Definition ais_done (x : adstate) : bool := cop_eqb (n_cop x) Done.
 Definition aboth_done (s : astate) : bool := ais_done (as_ct s) && ais_done (as_tc s).
 Definition afinished (sh : shape) (s : astate) : bool :=
@@ -81,17 +81,17 @@ Definition asink_eof (x : adstate) : adstate :=
   mkAD (n_skip x) (n_pre x) (n_src x) (n_wcl x) (n_cop x) (n_buf x) (n_rcv x) true (n_all x) (n_abort x).
 Definition anote_done (a : aact) (s : astate) : astate :=
   match a, as_first s with
-  | ACW, None => mkAS (as_replied s) (as_ct s) (as_tc s) (as_clock s) (Some (as_clock s)) (as_forced s) (as_up s) (as_down s)
+  | ACW, None => mkAS (as_replied s) (as_ct s) (as_tc s) (as_clock s) (Some (as_clock s)) (as_forced s) (as_up s) (as_down s) (as_rdl s) (as_wdl s)
   | _, _ => s
   end.
 
 Definition astepb (sh : shape) (s : astate) (l : alabel) : option astate :=
   match l with
   | ATick dt => if (0 <=? dt)%Z
-      then Some (mkAS (as_replied s) (as_ct s) (as_tc s) (as_clock s + dt)%Z (as_first s) (as_forced s) (as_up s) (as_down s))
+      then Some (mkAS (as_replied s) (as_ct s) (as_tc s) (as_clock s + dt)%Z (as_first s) (as_forced s) (as_up s) (as_down s) (as_rdl s) (as_wdl s))
       else None
   | AReply => if as_replied s then None
-      else Some (mkAS true (as_ct s) (as_tc s) (as_clock s) (as_first s) (as_forced s) (as_up s) (as_down s))
+      else Some (mkAS true (as_ct s) (as_tc s) (as_clock s) (as_first s) (as_forced s) (as_up s) (as_down s) (as_rdl s) (as_wdl s))
   | ADrain n =>
       let x := as_ct s in
       if sh_drain_first sh && as_replied s && cop_eqb (n_cop x) Idle && cop_eqb (n_cop (as_tc s)) Idle
@@ -99,15 +99,15 @@ Definition astepb (sh : shape) (s : astate) (l : alabel) : option astate :=
       then Some (mkAS (as_replied s)
                    (mkAD (n_skip x) 0 (if sh_drain_rereads sh then n_pre x + n_src x else n_src x) (n_wcl x) (n_cop x)
                          (n_buf x) (n_rcv x + n_pre x) (n_eof x) (n_all x) (n_abort x))
-                   (as_tc s) (as_clock s) (as_first s) (as_forced s) (as_up s) (as_down s))
+                   (as_tc s) (as_clock s) (as_first s) (as_forced s) (as_up s) (as_down s) (as_rdl s) (as_wdl s))
       else None
   | AClose sd =>
       if negb (aclosed sd s) && (afinished sh s && closes sh sd || agrace_over sh s)
       then Some (match sd with
                  | Up => mkAS (as_replied s) (asink_eof (as_ct s)) (as_tc s) (as_clock s) (as_first s)
-                              (as_forced s || negb (aboth_done s)) true (as_down s)
+                              (as_forced s || negb (aboth_done s)) true (as_down s) (as_rdl s) (as_wdl s)
                  | Down => mkAS (as_replied s) (as_ct s) (asink_eof (as_tc s)) (as_clock s) (as_first s)
-                              (as_forced s || negb (aboth_done s)) (as_up s) true
+                              (as_forced s || negb (aboth_done s)) (as_up s) true (as_rdl s) (as_wdl s)
                  end)
       else None
   | AD d a =>
@@ -129,18 +129,18 @@ Fixpoint arefused_at (sh : shape) (s : astate) (tr : list alabel) (i : N) : opti
   | l :: r => match astepb sh s l with Some s1 => arefused_at sh s1 r (i + 1) | None => Some i end
   end.
 
-Definition ainit (e o k : N) : astate :=
+Definition ainit (e o k : N) (rdl wdl : option Z) : astate :=
   mkAS false
        (mkAD 0 e 0 false Idle 0 0 false e false)
        (mkAD o 0 k false Idle 0 0 false (o + k) false)
-       0%Z None false false false.
+       0%Z None false false false rdl wdl.
 
 (* ---- the abstraction maps ---- *)
 Definition absd (x : dstate) : adstate :=
   mkAD (len (d_skip x)) (len (d_pre x)) (len (d_src x)) (d_wcl x) (d_cop x) (len (d_buf x)) (len (d_rcv x))
        (d_eof x) (len (d_all x)) (d_abort x).
 Definition abss (s : state) : astate :=
-  mkAS (s_replied s) (absd (s_ct s)) (absd (s_tc s)) (s_clock s) (s_first s) (s_forced s) (s_up s) (s_down s).
+  mkAS (s_replied s) (absd (s_ct s)) (absd (s_tc s)) (s_clock s) (s_first s) (s_forced s) (s_up s) (s_down s) (s_rdl s) (s_wdl s).
 Definition absa (a : act) : aact :=
   match a with
   | Write bs => AWr (len bs) | Shutdown => AShut | Read bs => ARd (len bs) | ReadEOF => AREOF
@@ -158,7 +158,7 @@ Definition concd (x : adstate) : dstate :=
   mkD (zeros (n_skip x)) (zeros (n_pre x)) (zeros (n_src x)) (n_wcl x) (n_cop x) (zeros (n_buf x)) (zeros (n_rcv x))
       (n_eof x) (zeros (n_all x)) (n_abort x).
 Definition concs (s : astate) : state :=
-  mkS (as_replied s) (concd (as_ct s)) (concd (as_tc s)) (as_clock s) (as_first s) (as_forced s) (as_up s) (as_down s).
+  mkS (as_replied s) (concd (as_ct s)) (concd (as_tc s)) (as_clock s) (as_first s) (as_forced s) (as_up s) (as_down s) (as_rdl s) (as_wdl s).
 Definition conca (a : aact) : act :=
   match a with
   | AWr n => Write (zeros n) | AShut => Shutdown | ARd n => Read (zeros n) | AREOF => ReadEOF
@@ -259,7 +259,7 @@ Proof.
     econstructor; [apply stepb_iff, astepb_conc; eassumption | apply IH; assumption].
 Qed.
 
-Lemma ainit_conc e k : concs (ainit e 0 k) = init (zeros e) [] (zeros k).
+Lemma ainit_conc e k r w : concs (ainit e 0 k r w) = init (zeros e) [] (zeros k) r w.
 Proof. reflexivity. Qed.
 
 Definition awrites (d : dir) (tr : list alabel) : N :=
@@ -278,7 +278,7 @@ Definition early_ofN (e k : N) (d : dir) : N := match d with CT => e | TC => k e
 
 (* The invariants transfer to the counters of every accepted abstract run. *)
 Theorem arun_counts sh e k tr s d :
-  shape_ok sh -> arun sh (ainit e 0 k) tr = Some s ->
+  shape_ok sh -> arun sh (ainit e 0 k None None) tr = Some s ->
   n_rcv (aget d s) <= early_ofN e k d + awrites d tr
   /\ n_buf (aget d s) <= sh_bufsz sh
   /\ (as_forced s = false ->
@@ -301,4 +301,86 @@ Proof.
     - rewrite G in A, W. simpl in A, W. apply (f_equal len) in A.
       rewrite len_app, EO, awrites_conc, zeros_len in A. split; assumption. }
   intro F. exact (forced_after_grace sh Hsh _ _ _ _ R F).
+Qed.
+
+(* ------------------------------------------------ the other direction: abstraction *)
+Lemma len_is_nil l : (len l =? 0) = is_nil l.
+Proof. destruct l; reflexivity. Qed.
+
+Lemma dstep_abs sh ok brk x a x' :
+  dstep sh ok brk x a x' -> adstepb sh ok brk (absd x) (absa a) = Some (absd x').
+Proof.
+  intro H; inversion H; subst; simpl.
+  - destruct (d_wcl x) eqn:W; [discriminate|]. unfold absd, upd_write; simpl. rewrite W, !len_app. reflexivity.
+  - destruct (d_wcl x) eqn:W; [discriminate|]. unfold absd, upd_shut; simpl. reflexivity.
+  - rewrite H1. simpl. rewrite len_is_nil, H2. simpl. rewrite len_is_nil.
+    assert (is_nil bs = false) as -> by (apply is_nil_false; assumption). simpl.
+    assert ((len bs <=? sh_bufsz sh) = true) as -> by (apply N.leb_le; assumption). simpl.
+    rewrite H5, len_app.
+    assert ((len bs <=? len bs + len rest) = true) as -> by (apply N.leb_le; lia). simpl.
+    unfold absd, upd_read; simpl. do 2 f_equal. lia.
+  - rewrite H1. simpl. rewrite !len_is_nil, H2, H3, H4. simpl. unfold absd, upd_eof; simpl. rewrite H2, H3, H4. reflexivity.
+  - destruct (d_cop x) eqn:C; try discriminate. simpl. rewrite len_is_nil.
+    assert (is_nil (d_buf x) = false) as -> by (apply is_nil_false; assumption). simpl.
+    rewrite N.eqb_refl. simpl. unfold absd, upd_deliver; simpl. rewrite C, len_app. reflexivity.
+  - destruct (d_cop x) eqn:C; try discriminate. reflexivity.
+  - rewrite H1. reflexivity.
+Qed.
+
+Lemma aget_abs d s : aget d (abss s) = absd (get d s).
+Proof. destruct d; reflexivity. Qed.
+Lemma aset_abs d s x : aset d (abss s) (absd x) = abss (set d s x).
+Proof. destruct d; reflexivity. Qed.
+Lemma anote_done_abs a s : anote_done (absa a) (abss s) = abss (note_done a s).
+Proof. unfold note_done, anote_done; destruct a; simpl; try reflexivity. destruct (s_first s); reflexivity. Qed.
+
+Lemma step_abs sh s l s' : step sh s l s' -> astepb sh (abss s) (absl l) = Some (abss s').
+Proof.
+  intro H; inversion H; subst; simpl.
+  - assert ((0 <=? dt)%Z = true) as -> by (apply Z.leb_le; assumption). reflexivity.
+  - rewrite H0. reflexivity.
+  - rewrite H0, H1, H2, H3. simpl. rewrite N.eqb_refl, len_is_nil.
+    assert (is_nil (d_pre (s_ct s)) = false) as -> by (apply is_nil_false; assumption). simpl.
+    unfold abss, drain, absd, upd_drain; simpl. rewrite ?H1, ?H2, ?H3. destruct (sh_drain_rereads sh); rewrite ?len_app, ?len_nil; reflexivity.
+  - assert (E1 : aclosed sd (abss s) = closed sd s) by (destruct sd; reflexivity).
+    assert (E2 : afinished sh (abss s) = finished sh s) by reflexivity.
+    assert (E3 : agrace_over sh (abss s) = grace_over sh s) by reflexivity.
+    rewrite E1, E2, E3, H0. simpl.
+    assert (finished sh s && closes sh sd || grace_over sh s = true) as -> by (apply orb_true_iff; assumption).
+    destruct sd; reflexivity.
+  - rewrite aget_abs.
+    assert (E1 : acan_copy sh (abss s) = can_copy sh s) by (unfold acan_copy, can_copy; simpl; rewrite len_is_nil; reflexivity).
+    assert (E2 : amay_break sh (abss s) d = may_break sh s d) by reflexivity.
+    rewrite E1, E2, (dstep_abs _ _ _ _ _ _ H0), aset_abs, anote_done_abs. reflexivity.
+Qed.
+
+Theorem run_abs sh s tr s' : steps sh s tr s' -> arun sh (abss s) (map absl tr) = Some (abss s').
+Proof.
+  induction 1; simpl; [reflexivity|]. rewrite (step_abs _ _ _ _ H). exact IHsteps.
+Qed.
+
+Lemma abs_conc_d x : absd (concd x) = x.
+Proof. destruct x; unfold absd, concd; simpl. rewrite !zeros_len. reflexivity. Qed.
+Lemma abs_conc s : abss (concs s) = s.
+Proof. destruct s; unfold abss, concs; simpl. rewrite !abs_conc_d. reflexivity. Qed.
+Lemma abs_conc_a a : absa (conca a) = a.
+Proof. destruct a; simpl; rewrite ?zeros_len; reflexivity. Qed.
+Lemma abs_conc_l l : absl (concl l) = l.
+Proof. destruct l; simpl; rewrite ?zeros_len, ?abs_conc_a; reflexivity. Qed.
+
+(* The length abstraction is EXACTLY the length image of the byte-level LTS:
+   (i) every byte-level run maps to an abstract run (run_abs), and
+   (ii) every abstract run is the image of a byte-level run (arun_realised, on all-zero
+        payloads), with abs . conc the identity on states and labels.
+   What the abstraction forgets is byte identity and nothing else: for payloads checked
+   through it the harness compares the received stream with the sent one in Go. *)
+Theorem abstract_is_length_image sh (a : astate) (atr : list alabel) (a' : astate) :
+  arun sh a atr = Some a' <->
+  exists s tr s', steps sh s tr s' /\ abss s = a /\ map absl tr = atr /\ abss s' = a'.
+Proof.
+  split.
+  - intro R. exists (concs a), (map concl atr), (concs a'). split; [apply arun_realised; exact R|].
+    split; [apply abs_conc|]. split; [|apply abs_conc].
+    rewrite map_map. rewrite <- (map_id atr) at 2. apply map_ext. apply abs_conc_l.
+  - intros (s & tr & s' & St & <- & <- & <-). apply run_abs. exact St.
 Qed.
